@@ -1,11 +1,14 @@
 """Registry of units and per-property texts (used for MANIFEST.json and the evidence files)."""
-UNITS = ["frame", "codec", "codec16", "gui", "per", "rc4", "engine"]
+UNITS = ["frame", "codec", "codec16", "gui", "per", "rc4", "engine", "session"]
 
 ENGINE_ASM = ("engine contract (prelude/model.rs): Component/Trame/Array/DynOption of src/model/data.rs are assumed to "
               "serialize as the in-order concatenation of their non-skipped fields and to read field by field "
               "preserving the layout; IndexMap/boxed closures are outside both installed verifiers")
 IO_ASM = "std::io::Read/Write + byteorder contracts (prelude/base.rs): sized reads return exactly the next bytes, read/write may be short, write_all/read_exact complete or fail"
 DUPLEX_ASM = "transport duplex axiom (prelude/base.rs axiom_duplex): reading does not change what was written and vice versa (rule R3 adds the marker bound)"
+
+# units under construction: never part of a property check
+DEV_UNITS = {"codec16", "rc4", "session"}
 
 PROPERTIES = {
     "C13": dict(
@@ -57,12 +60,29 @@ PROPERTIES.update({
         design_ref="DESIGN.md §7 C19"),
 })
 
+PROPERTIES.update({
+    "C18": dict(
+        scope="PER primitives (src/core/per.rs): every writer emits the reference encoding per_len/per_int/per_u16/per_oid/per_octets (spec functions written from X.691 as profiled by T.124/T.125) "
+              "and every reader decodes it; proved round-trip lemmas for ALL values (lengths 0..0x7fff, every u32 integer in its three size classes, every value>=minimum pair, every six-arc identifier, octet strings of every admissible length). "
+              "Leaf Message implementations of src/model/data.rs (u8, U16/U32 in both byte orders, Vec<u8>, Check<T>, Option<T>): real bodies proved against the Message contract: length()==|bytes written|, "
+              "read consumes exactly the encoding and restores the value, dec(enc(v))==v lemmas",
+        technique="contract-based deductive verification: Verus (z3), function bodies extracted from /repo on every run; inverse laws as proved lemmas over the spec functions used in the contracts",
+        level_note="not reached: Component/Trame/Array/DynOption inverse laws (the engine of data.rs iterates an IndexMap of boxed closures: assumed as the engine contract) and the yasna-based BER/DER structures (external crate). "
+                   "Trusted in unit engine: Clone/PartialEq of Check<T> payloads are structural (axiom_check_payload; proved for u8, Vec<u8>, and the eq part for U16/U32)",
+        assumptions=[IO_ASM, "axiom_check_payload (unit engine): clone() preserves the ghost view, == decides it for same-shape values"],
+        design_ref="DESIGN.md §7 C18"),
+})
+
 NOT_APPLICABLE = {
     "C20": "quantifies over thread schedules, TLS record packings and select(2) readiness: neither Verus nor Kani has a semantics for std::sync / libc::select / native-tls buffering; liveness of the receive thread is not a contract over one call (DESIGN.md §8)",
 }
 
 # what a property's statement mentions but no contract reaches
 UNVERIFIED = {
+    "C18": ["Component / Trame / Array / DynOption read-write inverse laws (src/model/data.rs engine): assumed, not proved",
+            "BER/DER wrappers of src/nla/asn1.rs over the yasna crate: not under contract",
+            "gcc conference create request/response round trip: only the PER prefix and Version::from are covered (unit mcs)",
+            "write_numeric_string is correct only for one-digit strings (its single caller): outside the claimed domain"],
     "C09": ["planar RLE (process_plane / rle_32_decompress) functional equivalence with MS-RDPEGDI 3.1.9: not proved (safety only)",
             "interleaved RLE (rle_16_decompress) functional equivalence with MS-RDPBCGR 3.1.9: not proved (safety only)"],
 }
